@@ -29,7 +29,7 @@ import time
 from harness import common, pool
 
 PID = "C20"
-TRANSLATORS = ["T-copies", "T-callbackcopies", "T-frontierflow"]
+TRANSLATORS = ["T-copies", "T-callbackcopies", "T-frontierflow", "T-solverlife"]
 
 # Genuine defects of halmos reproduced by this check on the unchanged tree (reported, not repaired).
 KNOWN = common.known_for("C20")  # entries live in /verif/known_findings.json
@@ -38,8 +38,10 @@ PARTIAL = ("CPython object aliasing outside the fields the code copies explicitl
            "(BuildOut, DeployAddressMapper, Mapper, Profiler, CoverageReporter, logger_unique), z3's own global state and "
            "the timing of --early-exit cannot be exhibited by the Coq model; they are monitored by the L2 fingerprint "
            "checks and the repeated in-process L3 runs only. Deep copies are modelled as copies to depth 8. The push/pop scope "
-           "protocol of the z3 solver shared by sibling Paths (Path.branch / Path.activate) is not modelled: the solver is a shared "
-           "field by design; a wrong scope would show up in the L2 leaf re-derivation. With --early-exit the L3 runs use a "
+           "protocol of the z3 solver shared by sibling Paths (Path.branch / Path.activate) is modelled for two-way branches over decision trees only "
+           "(Model/SolverLifeModel.v: what a run leaves in the solver, tied to solver.assertions() of the real runs); a wrong scope elsewhere would show up "
+           "in the L2 leaf re-derivation. The quick membership answers of Exec.check (condition or its negation already in Path.conditions), "
+           "`unknown` answers and the loop bound are outside that model. With --early-exit the L3 runs use a "
            "deterministic fast-solver schedule (every query answered before the path loop continues).")
 ASSUMPTIONS = [
     "Spec.exec_need / Spec.path_need (how deep each Exec / Path field is mutated in place) were written by reading sevm.py; "
@@ -50,6 +52,8 @@ ASSUMPTIONS = [
     "a configuration of the runner model is an integer; what a target transaction reaches is a function of the exploring configuration and the "
     "pre-state (cstep); in the L3 correspondence a configuration is identified with its loop bound",
     "C20_rename_verdict assumes a sound and complete solver (hypotheses in the statement); real solvers may time out",
+    "C20_state_runs_isolated holds for every solver answer function; that mk_solver returns a new empty solver and reset() leaves no assertion / scope "
+    "is checked on the source text and on the real functions by T-solverlife; a frontier state as the test sees it is (sliced conditions, decision tree of the test)",
     "the extracted model and driver are faithful to the Coq definitions (extraction is trusted)",
 ]
 
@@ -680,10 +684,103 @@ def l2_corpus_descs():
 N_L2_CORPUS = 4
 
 
+def norm_left(lits):
+    """literals left in a solver, without the exclusions an equation on the same symbol implies (halmos substitutes a
+    symbol that is equal to a constant, so `x != 5` is never added under `x == 12`)"""
+    if lits is None:
+        return None
+    lits = {tuple(x) for x in lits}
+    eqs = {(v, k) for v, k, p in lits if p}
+    return sorted(x for x in lits if x[2] or not any(v == x[0] and k != x[1] for v, k in eqs))
+
+
+_SL_REPORTED = [0]
+
+
+def analyse_solverlife(rep, res, model):
+    """the per-state solver life cycle of run_message (harness/c20_solverlife.py)"""
+    from harness import c20_solverlife as S
+
+    case = res["case"]
+    prog, fr = case["prog"], case["frontiers"]
+    if "error" in res:
+        rep.fail("broken-tie", f"solver life cycle: the real run_message could not be driven on case {case['id']}: {res['error'][-500:]}", case={"solverlife": case})
+        return
+    full = res["full"]
+    if not full["sliced_ok"]:
+        rep.fail("broken-tie", f"solver life cycle, case {case['id']}: a constraint on a symbol held in the state is not in the slice (the harness relies on Exec.path_slice)", case={"solverlife": case})
+        return
+    flat = [(d, i) for d, sts in enumerate(fr) for i in range(len(sts))]
+    nontrivial = len(flat) >= 2
+    rep.case({"solverlife": case["id"], "states": len(flat), "depths": len(fr)}, nontrivial=nontrivial)
+    rep.count("solverlife_depths", len(fr) - 1)
+    rep.count("solverlife_states", len(flat))
+    bad = False
+    rows = []
+    for d, i in flat:
+        st = fr[d][i]
+        rows.append((d, i, st, full["outs"][d][i], res["alone"][d][i]["outs"][0][0], res["reversed"][d][i], S.spec_outcomes(prog, st["slice"])))
+    # the first state whose outcomes in the frontier differ from the state alone; else in the reversed frontier; else from the spec
+    hit = next((x for x in rows if x[3] != x[4]), None) or next((x for x in rows if x[5] != x[4]), None)
+    if hit is not None:
+        d, i, st, got, alone, rev, _spec = hit
+        k = flat.index((d, i))
+        order = "as given" if got != alone else "in reversed order"
+        before = [fr[a][b]["slice"] for a, b in (flat[:k] if got != alone else reversed(flat[k + 1:]))]
+        bad = True
+        _SL_REPORTED[0] += 1
+        if _SL_REPORTED[0] <= 3:
+            rep.fail("failing-input", f"run_message: the test {prog} explored on the frontier state (depth {d}, #{i}, constraints {st['slice']}) gives the outcomes {got if got != alone else rev} "
+                     f"with the frontier {order}, i.e. after the states with constraints {before}, but {alone} when the state is the only one: the exploration of a frontier state depends on the "
+                     f"states explored before it (frontiers {[[x['slice'] for x in sts] for sts in fr]})",
+                     case={"solverlife": case, "state": [d, i], "in_frontier": got, "reversed": rev, "alone": alone},
+                     sig={"defect": "frontier-state-run-depends-on-earlier-states", "lost": bool(set(alone) - set(got if got != alone else rev))})
+        else:
+            rep.count("failures_not_repeated", "frontier-state-run-depends-on-earlier-states")
+    else:
+        hit = next((x for x in rows if sorted(x[3]) != x[6]), None)
+        if hit is not None:
+            d, i, st, got, _alone, _rev, spec = hit
+            bad = True
+            rep.fail("failing-input", f"run_message: the test {prog} on the frontier state (depth {d}, #{i}) with constraints {st['slice']} ends in the leaves {sorted(got)}; "
+                     f"the valuations that satisfy the constraints reach {spec}", case={"solverlife": case, "state": [d, i], "got": got, "spec": spec},
+                     sig={"defect": "frontier-state-outcomes-differ-from-spec"})
+    if model is None:
+        return
+    mo = model.batch([("c20_solverlife", S.enc_frontiers(prog, fr))] + [("c20_solver_leftover", S.enc_state(prog, fr[d][i])) for d, i in flat])
+    if mo[0] is None:
+        rep.fail("broken-tie", f"solver life cycle model failed on case {case['id']}", case={"solverlife": case})
+        return
+    m_outs, _ = S.dec_outs(mo[0], len(flat))
+    r_outs = [full["outs"][d][i] for d, i in flat]
+    if m_outs != r_outs:
+        rep.fail("broken-tie", f"solver life cycle, case {case['id']}: outcomes per frontier state: run_message {r_outs}, the model under the regenerated life cycle {m_outs} "
+                 f"(states {[fr[d][i]['slice'] for d, i in flat]}, test {prog})", case={"solverlife": case, "real": r_outs, "model": m_outs})
+        return
+    if not bad:
+        for (d, i), m in zip(flat, mo[1:]):
+            real_left = norm_left(res["alone"][d][i]["left"][0][0])
+            if m is None or real_left is None:
+                rep.count("solverlife_leftover", "not compared")
+                continue
+            outs, rest = S.dec_outs(m, 1)
+            m_left = norm_left([tuple(rest[j:j + 3]) for j in range(0, len(rest), 3)])
+            if m_left != real_left:
+                rep.fail("broken-tie", f"solver life cycle, case {case['id']}: what the solver holds when the run on state (depth {d}, #{i}, constraints {fr[d][i]['slice']}) returns: "
+                         f"z3 {real_left}, model {m_left} (test {prog})", case={"solverlife": case, "state": [d, i], "real": real_left, "model": m_left})
+                return
+            rep.count("solverlife_leftover", "compared")
+    rep.coverage["solverlife_cases_model_checked"] = rep.coverage.get("solverlife_cases_model_checked", 0) + 1
+
+
 def any_task(task):
     kind, payload = task
     if kind == "l3":
         return l3_task(payload)
+    if kind == "sl":
+        from harness import c20_solverlife
+
+        return c20_solverlife.task(payload)
     from harness import c20_dyn
 
     return c20_dyn.sibling_task(payload)
@@ -762,7 +859,12 @@ def run(rep, tier):
     old_tmp = (tempfile.tempdir, os.environ.get("TMPDIR"))
     tempfile.tempdir = tmp_base
     os.environ["TMPDIR"] = tmp_base
-    first = l3_tasks[:6] + l2_tasks[:8]
+    # the per-state solver life cycle of run_message: real run_message on hand-built frontiers (corpus first)
+    from harness import c20_solverlife
+
+    sl_cases = c20_solverlife.corpus() + [c20_solverlife.gen_case(r, i) for i in range(10 if tier == "quick" else 400)]
+    sl_tasks = [("sl", c) for c in sl_cases]
+    first = l3_tasks[:6] + l2_tasks[:8] + sl_tasks
     rest = []
     a, b = l3_tasks[6:], l2_tasks[8:]
     for i in range(max(len(a), len(b))):      # interleaved so that both kinds progress under the time budget
@@ -778,9 +880,16 @@ def run(rep, tier):
     else:
         os.environ["TMPDIR"] = old_tmp[1]
     shutil.rmtree(tmp_base, ignore_errors=True)
-    n_l3 = n_branching = n_red = 0
+    n_l3 = n_branching = n_red = n_sl = 0
     for (kind, payload), (st, val) in zip(tasks, out):
-        if kind == "l3":
+        if kind == "sl":
+            rep.count("solverlife_status", st)
+            if st != "ok":
+                rep.fail("broken-tie", f"solver life cycle worker failed on case {payload['id']}: {st} {str(val)[-600:]}", case={"solverlife": payload})
+                continue
+            n_sl += 1
+            analyse_solverlife(rep, val, model)
+        elif kind == "l3":
             s = payload[0]
             rep.count("l3_status", st)
             rep.count("l3_flavour", s["flavour"])
@@ -815,6 +924,7 @@ def run(rep, tier):
     rep.coverage["pool_seconds"] = round(time.time() - t_pool, 1)
     rep.coverage["l2_branching_programs"] = n_branching
     rep.coverage["l2_leaves_rederived"] = n_red
+    rep.coverage["solverlife_cases"] = n_sl
     if n_l3 < 4:
         rep.fail("broken-tie", f"only {n_l3} generated contracts could be run end to end", case={})
     if n_branching < 2:
@@ -829,7 +939,7 @@ def run(rep, tier):
     rep.coverage["traces_validated_against_impl"] = rep.coverage.get("contracts_model_checked", 0)
     return rep.finish(
         checker_cmd="make -C coq Props/C20.vo (coq_makefile, coqc 8.16.1) after regenerating coq/Gen/GenCopies.v from /repo/src/halmos/sevm.py "
-                    "and coq/Gen/GenFrontierFlow.v from /repo/src/halmos/__main__.py",
+                    "and coq/Gen/GenFrontierFlow.v, coq/Gen/GenSolverLife.v from /repo/src/halmos/__main__.py",
         trusted_base=common.TRUSTED_BASE_COMMON,
         assumptions=ASSUMPTIONS,
         partial=PARTIAL,
@@ -839,6 +949,10 @@ def run(rep, tier):
              "schedules = all tests, each alone, permutations (fabricated methodIdentifiers orders), subsets (--match-test), a repeated run, three deterministic uuid4 streams, "
              "all inside one process per contract; a case is non-trivial when the test is not first in its schedule, or runs under a patched uuid stream or in the repeated run; "
              "compared: exit code, counterexample count, counterexample symbols (uid fragments stripped) and values where unique, path counts, loop-bound count. "
+             "Solver life cycle cases = (test, frontiers): a generated decision tree over literals x_v == k / x_v != k on two calldata words (depth <= 3, leaves STOP / INVALID / REVERT), "
+             "run by the real run_message on hand-built frontiers of 1..3 depths with 1..3 states each, every state holding the symbols in storage with 0..2 sliced constraints on them "
+             "(constants that decide or do not decide the tested ones); compared per state: outcomes in the frontier vs the state alone vs the frontier in reversed order vs the leaves reached "
+             "by the satisfying valuations (enumerated), and vs the extracted model under the regenerated life cycle (outcomes in order; literals left in the solver); non-trivial with >= 2 states. "
              "Store cases = (table, field, nesting level) pokes of real objects. L2 cases = generated branching programs (worklist push/pop fingerprints, leaf re-derivation)",
     )
 
